@@ -267,6 +267,10 @@ def analyse(res: Result, sim: simnet.Sim, sc: Dict[str, Any], model: ResponderMo
                     lo, hi, jl, jh = r_lo, r_hi, r_lo, r_hi
                 elif c == "aggregated":
                     lo, hi, jl, jh = r_lo, r_hi + 500.0, r_lo + 20.0, r_hi + 500.0
+                    if tcshape != "-":
+                        # a released train is queued with the arrival time of its FIRST packet, so its 20..120 ms jitter has
+                        # already elapsed: it may leave with any group that is pending at the release instant
+                        jl = r_lo
                 else:
                     s = s_hi if s_hi is not None else s_lo
                     lo, hi, jl, jh = r_lo, r_hi + 1200.0, max(r_lo + 20.0, (s or r_lo) + 1000.0), r_hi + 1200.0
